@@ -655,8 +655,12 @@ async fn handle_task_with_signals<F: Future<Output = tako::Result<TaskResult>>>(
     end_receiver: Receiver<StopReason>,
 ) -> tako::Result<TaskResult> {
     let send_signal = |signal: Signal| -> tako::Result<()> {
-        let pgid = nix::unistd::getpgid(Some(nix::unistd::Pid::from_raw(pid as i32)))
-            .map_err(|error| format!("Cannot get PGID for PID {pid}: {error:?}"))?;
+        let pid = nix::unistd::Pid::from_raw(pid as i32);
+        // The task is started in its own session, so its process group id equals its PID.
+        // Once the group leader has exited and been reaped, `getpgid` no longer knows it, but
+        // the remaining processes of the task (that may still hold its output open) still
+        // form that group.
+        let pgid = nix::unistd::getpgid(Some(pid)).unwrap_or(pid);
         signal::killpg(pgid, Some(signal))
             .map_err(|error| format!("Cannot send signal {signal} to PGID {pgid}: {error:?}"))?;
         Ok(())
